@@ -7,8 +7,10 @@ PROPS = {
         "engine": "interp",
         "timeout_s": {"quick": 120, "thorough": 600},
         "batches": {
-            "quick": [{"config": "gcc-O1-asan-ubsan", "runs": 6000}, {"config": "clang-O2-ndebug", "runs": 1500}],
-            "thorough": [{"config": "clang-O2-ndebug", "runs": 50000}, {"config": "gcc-O1-asan-ubsan", "runs": 12000}],
+            "quick": [{"config": "gcc-O1-asan-ubsan", "runs": 6000}, {"config": "clang-O2-ndebug", "runs": 1500},
+                      {"config": "clang-O1-preempt", "runs": 600, "kv": {"conc_frac": "0.1"}}],
+            "thorough": [{"config": "clang-O2-ndebug", "runs": 50000}, {"config": "gcc-O1-asan-ubsan", "runs": 12000},
+                         {"config": "clang-O1-preempt", "runs": 6000, "kv": {"conc_frac": "0.1"}}],
         },
         "rule": "One run = one seeded plan: a table (N in {3..2000}, spacing ratios up to 1e9, optional unit factors) and an "
                 "interleaving, chosen by the seeded scheduler, of 1-4 client programs (walker, jumper, edge-sitter, knot-hitter) "
